@@ -29,8 +29,10 @@ RULE = ('the documents and configurations of C13 (labels on sections, figures an
 TRUSTED = ['modelled, not verified: which node kinds carry an id attribute and which emit links (std_tmpl in Model/Render.v, a table of the '
            'shipped HTML5 / XHTML templates), checked by this correspondence; Jinja2 / simpleTAL themselves',
            'harness/render_docs.py (DOM walker, html.parser reader); Model/Filenames.v (property C15) for the file names']
-ASSUMPTIONS = ['labels pairwise distinct (C09) and distinct from bibliography keys; no urloverride; fragile commands kept out of titles; '
-               'file names without a directory part']
+PREMISES = {}
+ASSUMPTIONS = rd.Counted(['labels pairwise distinct (C09) and distinct from bibliography keys; no urloverride; fragile commands kept out of titles; '
+               'file names without a directory part'], PREMISES,
+                         'premises of C13_split_by_level / C14_toc_reaches_all_assigned (hyps_b) hold on %d of %d rendered cases of this run')
 CASE_TIMEOUT = 150
 
 
@@ -235,6 +237,9 @@ def oracle(case, rec):
 
 
 def judge(case, io, mo):
+    mo, flag = rd.unwrap(mo)
+    if flag is not None and io[:1] == [0]:
+        PREMISES[flag] = PREMISES.get(flag, 0) + 1
     rec = rd.record(case, render_if_missing=False)
     if io[:1] in (['hang'], ['harness-error']) or rec is None:
         return dict(violation=False, key='C14:no-render', what='no render record: %s' % (io,))
